@@ -580,6 +580,63 @@ func (r *runner) runtimePasswordProbe(password string) {
 	}
 }
 
+// ---- (g2) the READONLY switch means what its acknowledgement says
+
+// readonlySwitchProbe: the argument of READONLY is case-insensitive wherever the
+// server accepts it. Whenever `READONLY <spelling of yes>` is answered OK the
+// server must refuse writes and report read_only; whenever `READONLY <spelling
+// of no>` is answered OK writes must work again. A spelling the server rejects
+// with an error must leave the switch where it was.
+func (r *runner) readonlySwitchProbe() {
+	ctx := r.ctx
+	s, err := srv.Start(srv.Opts{Bin: r.bin})
+	if err != nil {
+		ctx.Inconclusive("readonly switch probe: " + err.Error())
+		return
+	}
+	defer s.Kill9()
+	c, err := dial(s.Addr())
+	if err != nil {
+		ctx.Inconclusive("readonly switch probe: " + err.Error())
+		return
+	}
+	defer c.Close()
+	c.Do("SET", "fleet", "truck1", "POINT", "33", "-112")
+	readonly := false // what the acknowledged switches add up to
+	n := 0
+	writable := func() (bool, string, error) {
+		n++
+		rp, err := c.Do("SET", "fleet", fmt.Sprintf("w%d", n), "POINT", "1", "1")
+		if err != nil {
+			return false, "", err
+		}
+		return !rp.IsErr(), rp.String(), nil
+	}
+	for _, sp := range []string{"yes", "no", "YES", "NO", "Yes", "No", "yEs", "nO", "YES", "yes", "NO"} {
+		rp, err := c.Do("READONLY", sp)
+		if err != nil {
+			ctx.Inconclusive("readonly switch probe: " + err.Error())
+			return
+		}
+		if !rp.IsErr() {
+			readonly = strings.EqualFold(sp, "yes")
+		}
+		w, wr, err := writable()
+		if err != nil {
+			ctx.Inconclusive("readonly switch probe: " + err.Error())
+			return
+		}
+		f, _ := serverFields(c)
+		ctx.Eval(1)
+		ctx.Distinct("readonly-switch|" + sp + "|" + strconv.FormatBool(rp.IsErr()))
+		if w == readonly || (f["read_only"] == "true") != readonly {
+			ctx.Violation("gate:readonly-switch-ignored", fmt.Sprintf("`READONLY %s` was answered %s, so the server should be %s; a following SET is answered %s and SERVER reports read_only=%v", sp, trunc(rp.String(), 60), map[bool]string{true: "read-only", false: "writable"}[readonly], trunc(wr, 80), f["read_only"]),
+				map[string]any{"argument": sp, "reply": rp.String(), "set_reply": wr, "read_only": f["read_only"]})
+			return
+		}
+	}
+}
+
 // ---- (h) a follower in the middle of its first synchronisation
 
 // partialSyncProbe: a follower that has applied some, but not all, of its
